@@ -4,6 +4,8 @@ import (
 	"bytes"
 	"encoding/binary"
 	"fmt"
+	"runtime"
+	"strings"
 	"sync"
 	"sync/atomic"
 	"testing"
@@ -25,6 +27,15 @@ func TestVerifC15(t *testing.T) {
 				}))
 			continue
 		}
+		if len(op.Toks) == 3 && op.Toks[0] == "c15.cap" && op.Toks[1] == "amd64" {
+			bs := vh.UnHex(op.Toks[2])
+			res := vh.Catch(func() string { return fmt.Sprintf("patched=%v", checkAlreadyPatch(bs)) })
+			if strings.HasPrefix(res, "panic") {
+				res = "panic"
+			}
+			out.Put(op.Idx, "%s", res)
+			continue
+		}
 		if len(op.Toks) != 4 || op.Toks[0] != "emit" {
 			continue
 		}
@@ -44,7 +55,7 @@ func TestVerifC15(t *testing.T) {
 
 
 func c15Conc(base uint64, g int, emit func(uint64) []byte, want func(uint64) []byte) string {
-	const k = 400
+	const k = 3000
 	res := make([][][]byte, g)
 	var ready int32
 	var wg sync.WaitGroup
@@ -54,7 +65,10 @@ func c15Conc(base uint64, g int, emit func(uint64) []byte, want func(uint64) []b
 			defer wg.Done()
 			res[i] = make([][]byte, k)
 			atomic.AddInt32(&ready, 1)
-			for atomic.LoadInt32(&ready) < int32(g) {
+			for n := 0; atomic.LoadInt32(&ready) < int32(g); n++ {
+				if n > 1<<20 {
+					runtime.Gosched() // the barrier must not depend on asynchronous preemption (GOMAXPROCS=1, asyncpreemptoff)
+				}
 			}
 			for j := 0; j < k; j++ {
 				res[i][j] = emit(base + uint64(i)<<32 + uint64(j)*0x10001)
